@@ -15,11 +15,12 @@ GOENV = dict(os.environ, GOFLAGS='-mod=mod', GOPROXY='off', GOTOOLCHAIN='local',
 
 TRUSTED_BASE = [
     'Coq 8.16.1 kernel (coqc, full .vo build; vm_compute; no native_compute); coqchk in the thorough tier',
-    'Coq standard library and std++ 1.8.0 as compiled on this image; no axioms declared by this development',
+    'Coq standard library, std++ 1.8.0 and coq-record-update (RecordUpdate: record setters used by Rpc.v; definitions only) as compiled on this image; no axioms declared by this development',
+    'finite invariants (CliFinish, CtorGate, Rpc components: 122 880 client and 2 x 819 200 server control states) are evaluated with vm_compute on every state and lifted by forallb_forall lemmas; coqchk re-checks these computations with its own virtual machine',
     'extraction: ExtrOcamlBasic only (bool, option, unit, list, prod, sumbool, sumor, andb, orb); N/Z/positive/nat stay Coq datatypes; OCaml 4.13.1',
     'validator/driver.ml (hand-written OCaml glue: line parsing, number/string conversion, printing)',
     'Go harness under /verif/harness (generators, drivers, in-memory carrier, probes), testing/synctest, the Go race detector',
-    'translators harness/paramscan (constants -> gen/Params.v) and lockscan (go/packages + go/types: field access sites, held mutexes, channel publication -> gen/AccessTable.v)',
+    'translators harness/paramscan (constants, synchronisation skeletons with and without guards -> gen/Params.v) and lockscan (go/packages + go/types: field access sites, held mutexes, channel publication -> gen/AccessTable.v)',
     'the Go code itself is modelled, not verified: the model is tied to it by the correspondence checks on sampled inputs',
 ]
 
